@@ -1,0 +1,29 @@
+//go:build verif
+
+// Machine-checked contracts for package session_key (comment-only file; never
+// compiled into the library).  Read by /verif/engine (gvc).
+
+package session_key
+
+//@ contract ReadSessionKey(bytes []byte) (sessionKey SessionKey, remainder []byte, err error)
+//@   ensures @C01 @C03 (err == nil) == (len(bytes) >= 32)
+//@   ensures @C01 @C03 err == nil ==> seqeq(sessionKey[:], bytes[:32]) && suffix(remainder, bytes, 32)
+//@   ensures @C03 err != nil ==> remainder == nil
+//@   modifies nothing
+
+//@ contract NewSessionKey(data []byte) (sessionKey *SessionKey, remainder []byte, err error)
+//@   ensures @C19 (err == nil) == (len(data) >= 32)
+//@   ensures @C19 err == nil ==> sessionKey != nil && seqeq(sessionKey[:], data[:32]) && suffix(remainder, data, 32)
+//@   ensures err != nil ==> sessionKey == nil && remainder == nil
+//@   modifies nothing
+
+//@ contract (sk SessionKey) Bytes() (b []byte)
+//@   ensures @C01 len(b) == 32 && seqeq(b, sk[:]) && fresh(b)
+//@   modifies nothing
+
+//@ lemma C01_ReadSessionKey(data []byte) {
+//@   k, rem, err := ReadSessionKey(data)
+//@   if err == nil {
+//@     assert(seqeq(k.Bytes(), data[:len(data)-len(rem)]))
+//@   }
+//@ }
